@@ -935,7 +935,7 @@ Fixpoint cdedup (l : list (cres * cres)) : list (cres * cres) :=
   end.
 Lemma generated_nesting :
   cdedup (concat (map (fun x : String.string * list caction => cnest_from [] (snd x)) all_footprints))
-  = [(CBar, CMulti); (CSlot, CStop)].
+  = [(CSlot, CStop); (CBar, CMulti)].
 Proof. vm_compute. reflexivity. Qed.
 
 Lemma old_update_rejected :
